@@ -107,6 +107,12 @@ func (g *Gen) exactBinary() (d128.Decimal, float64) {
 func genC07(g *Gen) {
 	g.setMode(0)
 	verbs := "eEfFgG"
+	// every short format string: Sprintf and Append(spec) must agree on each (those that parse are laid out by FormatSem)
+	g.gridRun(nShortSpecs, 0.1, func(i int) {
+		e := Ev{"op": "Sprintf", "spec": ints(shortSpec(i))}
+		e.setDec("x", []d128.Decimal{mk(true, big.NewInt(12375), -3), mk(false, big.NewInt(5), -1), mk(false, big.NewInt(25), -1), mk(true, big.NewInt(0), 0), mk(false, big.NewInt(123456789), 4), g.fmtValue(1)}[g.r.Intn(6)])
+		g.emit(e)
+	})
 	for !g.w.full() {
 		verb := verbs[g.r.Intn(len(verbs))]
 		precs := []int{-1, -1, 0, 1, 2, 3, 5, 6, 7, 10, 17, 20, 33, 34, 35, 36, 40}
@@ -155,4 +161,21 @@ func genC07(g *Gen) {
 		}
 	}
 	_ = math.Pi
+}
+
+// every format string of up to three symbols over {+ - # space 0 5 . e v}
+const specAlpha = "+-# 05.ev"
+const nShortSpecs = 1 + 9 + 81 + 729
+
+func shortSpec(i int) []byte {
+	switch {
+	case i == 0:
+		return nil
+	case i < 10:
+		return []byte{specAlpha[i-1]}
+	case i < 91:
+		return []byte{specAlpha[(i-10)/9], specAlpha[(i-10)%9]}
+	}
+	k := i - 91
+	return []byte{specAlpha[k/81], specAlpha[k/9%9], specAlpha[k%9]}
 }
